@@ -19,10 +19,71 @@ def subtle(rng):
             lambda: {'k': 1.0}, lambda: {}][c - len(SUBTLE)]()
 
 
+ATOMS = [None, 0, 1, 1.0, True, False, 'x', '', NAN, b'x']
+
+
+def small_container(rng, depth=0):
+    """Containers over a tiny alphabet: old/new pairs collide often, differing in a single key, position, type or None."""
+    c = rng.randrange(4 if depth < 2 else 1)
+    if c == 0:
+        return rng.choice(ATOMS)
+    if c == 1:
+        return {k: small_container(rng, depth + 1) for k in rng.sample(['a', 'b', 'c'], rng.randint(0, 2))}
+    if c == 2:
+        return [small_container(rng, depth + 1) for _ in range(rng.randint(0, 2))]
+    return tuple(small_container(rng, depth + 1) for _ in range(rng.randint(0, 2)))
+
+
 def pool(rng):
     c = rng.random()
-    if c < 0.45:
+    if c < 0.3:
         return subtle(rng)
+    if c < 0.45:
+        v = small_container(rng)
+        return v if type(v) in (list, tuple, dict) else subtle(rng)
     if c < 0.55:
         return object()
     return ('tok', rng.getrandbits(40))
+
+
+def vary(old, rng):
+    """A value closely related to `old`: an equal copy, or differing in one key name / one element / container type /
+    None-vs-falsy -- the neighbourhood in which a hand-written equality test goes wrong."""
+    import copy
+    if type(old) is dict:
+        new = copy.deepcopy(old)
+        c = rng.randrange(5)
+        if c == 0 or not new:
+            return new if new or rng.random() < 0.5 else {'a': None}
+        k = rng.choice(list(new))
+        if c == 1:
+            new[k + '_'] = new.pop(k)            # same size, one key renamed, value kept (possibly None)
+        elif c == 2:
+            new[k] = None if new[k] is not None else 0
+        elif c == 3:
+            new[k] = vary(new[k], rng)
+        else:
+            new.pop(k)
+        return new
+    if type(old) in (list, tuple):
+        new = copy.deepcopy(list(old))
+        c = rng.randrange(5)
+        if c == 0:
+            return type(old)(new)
+        if c == 1:
+            return tuple(new) if type(old) is list else list(new)      # equal elements, other container type
+        if c == 2 and new:
+            i = rng.randrange(len(new))
+            new[i] = vary(new[i], rng)
+        elif c == 3:
+            new.append(None)
+        elif new:
+            new.reverse()
+        return type(old)(new)
+    if old is None:
+        return rng.choice([None, 0, False, '', [], {}])
+    if isinstance(old, bool):
+        return rng.choice([old, int(old), float(old), not old])
+    if isinstance(old, (int, float)):
+        return rng.choice([old, float(old) if isinstance(old, int) else old, old + 1, -old, NAN])
+    return rng.choice([old, small_container(rng)])
